@@ -95,6 +95,24 @@ Lemma failing_initialiser_l : forall t ks c e er,
   eval t 0 e = VErr er -> apply_op t (OInit ks c e) = Err er.
 Proof. intros t ks c e er H. simpl. now rewrite H. Qed.
 
+Lemma lookup_init_binds : forall ks c w k (m : amap (bool * option nat)), In k ks ->
+  lookup k (bind_all (init_binds ks c w) m) = Some (c, Some w).
+Proof.
+  induction ks as [|k0 r IH]; intros c w k m Hin; [destruct Hin|].
+  change (bind_all (init_binds (k0 :: r) c w) m) with (bind_all (init_binds r c w) (bind k0 (c, Some w) m)).
+  destruct (in_dec string_dec k r) as [Hr|Hn]; [now apply IH|].
+  destruct Hin as [->|Hr]; [|contradiction].
+  rewrite lookup_bind_all_notin by (now rewrite init_binds_keys). apply lookup_bind_eq.
+Qed.
+
+(* a constant bound by an import rejects assignment (formerly finding C18-imported-const-assignable) *)
+Lemma init_const_rejects_assignment : forall t ks e t' k v,
+  apply_op t (OInit ks true e) = Ok t' -> In k ks -> assign t' k v = Err (EConstAssign k).
+Proof.
+  intros t ks e t' k v H Hin. destruct (apply_init_ok _ _ _ _ _ H) as [w [_ ->]]. unfold assign. simpl.
+  now rewrite (lookup_init_binds ks true w k (vars t) Hin).
+Qed.
+
 (* ---------- the history invariant.  [run_stmts ... (firstn k m) (mark_loaded p t)] is the state in
    which the loader reaches statement k of module p. *)
 Lemma run_stmts_app : forall imp p l1 l2 t,
